@@ -262,4 +262,4 @@ func genLoginLayout(repo string) (*leanFile, error) {
 	return lf, nil
 }
 
-func init() { extraGens = append(extraGens, genLoginLayout) }
+func init() { extraGens = append(extraGens, namedGen{"LoginLayout.lean", genLoginLayout}) }
